@@ -89,6 +89,11 @@ func c11Directed() []struct {
 	c.addrs = [][2]c11Addr{{ip(1), ip(2)}, {ip(2), ip(3)}, {ip(3), ip(4)}}
 	add(c, []c11Op{{10, []int64{1, 0}}, {10, []int64{2, 0}}, {12, []int64{2, 0, 1, 2}},
 		{13, []int64{1, 0, 2, 1, 0, 0, 0}}, {17, []int64{61000}}, {17, []int64{600000}}})
+	// (e) the relay host also holds a limited connection to the reserving peer; the direct one closes
+	c = base()
+	c.addrs = [][2]c11Addr{{ip(1), ip(2)}, {ip(2), ip(3)}, {ip(3), ip(4)}}
+	add(c, []c11Op{{10, []int64{1, 0}}, {10, []int64{2, 0}}, {12, []int64{2, 0, 1, 0}}, {10, []int64{2, 2}},
+		{11, []int64{2, 0}}, {13, []int64{1, 0, 2, 1, 0, 0, 0}}, {12, []int64{2, 0, 1, 0}}, {11, []int64{2, 2}}, {17, []int64{1000}}})
 	return res
 }
 
